@@ -251,19 +251,42 @@ Lemma spec_desc_unfold s0 : spec_desc s0 =
     | None => Unspecified
     end
   else
-    match lookup_name colournames body with
+    match lookup_name doc_names body with
     | Some col =>
-      if hi && negb (col <? 8) then Unspecified else
       let i := if hi then col + 8 else col in
       match tail with
       | None => MustAccept i None
       | Some t => match hex6 t with Some c => MustAccept i (Some c) | None => Unspecified end
       end
-    | None => MustReject
+    | None =>
+      match lookup_name colournames body with
+      | Some _ => Unspecified
+      | None => MustReject
+      end
     end.
 Proof.
   unfold spec_desc, strip_hi, spec_body. destruct (starts_with HI s0);
     destruct (split_hash _) as [head tail]; reflexivity.
+Qed.
+
+Lemma str_eqb_eq : forall a b, str_eqb a b = true -> a = b.
+Proof.
+  induction a as [|x a IH]; intros [|y b] H; try discriminate; [reflexivity|].
+  cbn [str_eqb] in H. apply andb_prop in H. destruct H as (H1 & H2).
+  assert (x = y) by lia. subst y. rewrite (IH b H2). reflexivity.
+Qed.
+
+(* the documented names are in colournames[] as it is now, with the documented indexes *)
+Lemma doc_in_table s col : lookup_name doc_names s = Some col ->
+  lookup_name colournames s = Some col /\ (col <? 8) = true.
+Proof.
+  unfold doc_names. cbn [lookup_name].
+  repeat (match goal with
+          | |- (if str_eqb ?n s then _ else _) = _ -> _ =>
+            destruct (str_eqb n s) eqn:E;
+            [apply str_eqb_eq in E; subst s; intros [= <-]; vm_compute; split; reflexivity|clear E]
+          end).
+  discriminate.
 Qed.
 
 Lemma parse_desc_unfold s0 : parse_desc s0 =
@@ -322,12 +345,9 @@ Proof.
     + intros [= <- <-]. rewrite (rgbpart_none s Et). reflexivity.
   - assert (Hscan : scan_d s = None) by (apply scan_d_number_like; exact Enl).
     rewrite Hscan. rewrite find_name_lookup by exact Hlen. rewrite <- Hbody.
-    destruct (lookup_name colournames (spec_body s)) as [col|]; [|discriminate].
-    destruct (hi && negb (col <? 8)) eqn:Ehi; [discriminate|].
-    assert (Hi : (if (col <? 8) && hi then col + 8 else col) = (if hi then col + 8 else col)).
-    { destruct hi; [|rewrite andb_false_r; reflexivity]. cbn [andb] in Ehi.
-      destruct (col <? 8); [reflexivity|discriminate]. }
-    rewrite Hi.
+    destruct (lookup_name doc_names (spec_body s)) as [col|] eqn:Edoc.
+    2:{ destruct (lookup_name colournames (spec_body s)); discriminate. }
+    destruct (doc_in_table _ _ Edoc) as (Htab & Hlt). rewrite Htab, Hlt. cbn [andb].
     destruct (snd (split_hash s)) as [t|] eqn:Et.
     + destruct (hex6 t) as [c'|] eqn:Eh; [|discriminate]. intros [= <- <-].
       rewrite (rgbpart_of_tail s t c' Et Eh). reflexivity.
@@ -346,9 +366,9 @@ Proof.
     destruct (snd (split_hash s)) as [t|]; [|discriminate]. destruct (hex6 t); discriminate.
   - assert (Hscan : scan_d s = None) by (apply scan_d_number_like; exact Enl).
     rewrite Hscan. rewrite find_name_lookup by exact Hlen. rewrite <- Hbody.
-    destruct (lookup_name colournames (spec_body s)) as [col|]; [|reflexivity].
-    destruct (hi && negb (col <? 8)); [discriminate|].
-    destruct (snd (split_hash s)) as [t|]; [|discriminate]. destruct (hex6 t); discriminate.
+    destruct (lookup_name doc_names (spec_body s)) as [col|].
+    + destruct (snd (split_hash s)) as [t|]; [|discriminate]. destruct (hex6 t); discriminate.
+    + destruct (lookup_name colournames (spec_body s)); [discriminate|reflexivity].
 Qed.
 
 (* the pinned code (prefix match): "b" must be rejected, but is taken for black *)
